@@ -1,9 +1,9 @@
 (* Properties_C09.v — C09: CSV written and read per RFC 4180 for any field content and separator.
-   Statements only.  Specification: CsvSpec.v (render = the RFC 4180 grammar in generative form, rfc_parse = its
-   reference parser); model of the code as it is: CsvModel.v.  Where the current code falsifies the full-strength
-   statement, the statement stays (Definition ..._statement in CsvProofs.v, repeated in the comment), with
-   T_..._refuted (the statement is false of the model, witness by computation) and T_..._outside (it holds for
-   every input outside the named defect class). *)
+   Statements only.  Specification: CsvSpec.v (render = the RFC 4180 grammar in generative form, indexed by the free
+   choices: escaped or not per field, LF or CRLF per record, final line break or not; rfc_parse = its reference
+   parser).  Model of the code as it is now: CsvModel.v (after fix: 598f817 F21, e6b2b49 F24, c131fe5 F23, 04a3ed1 F25).
+   Two statements are still false of the code (F18, F22): the full statement stays as a Definition in CsvProofs.v,
+   repeated in the comment, with T_..._refuted and a theorem that says what happens instead on the whole class. *)
 From BS Require Import Base CsvSpec CsvSpecProofs CsvModel CsvWriterProofs CsvReaderProofs CsvStreamProofs CsvProofs.
 Local Open Scope N_scope.
 
@@ -13,41 +13,27 @@ Theorem T_C09_spec_parse_inverts_render : forall sep chs final t text, sane_sep 
 Proof. exact render_parse. Qed.
 Print Assumptions T_C09_spec_parse_inverts_render.
 
-(* ---- writer: an independent RFC 4180 parser recovers header and rows from the output ----
-   full statement (writer_rfc_statement):
-     forall sep hdr rows, allowed sep -> rows <> [] -> hdr <> [] -> uniform hdr rows ->
-     exists text, csv_write sep hdr rows = Ok text /\ rfc_parse sep text = Some (hdr :: rows)
-   false of the current code: F21, a field with CR but no DQUOTE/separator/LF is written bare *)
-Theorem T_C09_writer_rfc_refuted : ~ writer_rfc_statement.
-Proof. exact writer_rfc_refuted. Qed.
-Print Assumptions T_C09_writer_rfc_refuted.
-
-Theorem T_C09_writer_rfc_outside : forall sep hdr rows,
+(* ---- writer: an independent RFC 4180 parser recovers header and rows from the output, for arbitrary byte-string
+   fields (separators, quotes, CR, LF, any UTF-8) and every allowed separator ---- *)
+Theorem T_C09_writer_rfc : forall sep hdr rows,
   allowed sep -> rows <> [] -> hdr <> [] -> uniform hdr rows ->
-  has_f21 sep (hdr :: rows) = false ->
   exists text, csv_write sep hdr rows = Ok text /\ rfc_parse sep text = Some (hdr :: rows).
-Proof. exact writer_rfc_outside. Qed.
-Print Assumptions T_C09_writer_rfc_outside.
+Proof. exact writer_rfc. Qed.
+Print Assumptions T_C09_writer_rfc.
 
-(* the defect class is exactly: CR present, DQUOTE / separator / LF absent *)
-Theorem T_C09_f21_class : forall sep f, f21_field sep f = true <-> In CR f /\ ~ In DQ f /\ ~ In sep f /\ ~ In LF f.
-Proof. exact f21_field_char. Qed.
-Print Assumptions T_C09_f21_class.
-
-(* ---- writer: every field is quoted exactly when RFC 4180 needs it, records end with CRLF ----
-   full statement (writer_quotes_iff_needed_statement): the output is the rendering with
-   min_choice = (quote field f iff needs_quote sep f, CRLF) and a final line break; false by F21 *)
-Theorem T_C09_writer_quotes_iff_needed_refuted : ~ writer_quotes_iff_needed_statement.
-Proof. exact writer_quotes_refuted. Qed.
-Print Assumptions T_C09_writer_quotes_iff_needed_refuted.
-
-Theorem T_C09_writer_quotes_iff_needed_outside : forall sep hdr rows,
+(* ---- writer: the output is the rendering in which a field is escaped exactly when RFC 4180 needs it
+   (min_choice = needs_quote per field, CRLF after every record, final line break) ---- *)
+Theorem T_C09_writer_quotes_iff_needed : forall sep hdr rows,
   allowed sep -> rows <> [] -> hdr <> [] -> uniform hdr rows ->
-  has_f21 sep (hdr :: rows) = false ->
   exists text, csv_write sep hdr rows = Ok text /\
     render sep (map (min_choice sep) (hdr :: rows)) true (hdr :: rows) = Some text.
-Proof. exact writer_quotes_outside. Qed.
-Print Assumptions T_C09_writer_quotes_iff_needed_outside.
+Proof. exact writer_quotes_iff_needed. Qed.
+Print Assumptions T_C09_writer_quotes_iff_needed.
+
+Theorem T_C09_writer_field_quotes_iff_needed : forall sep f out,
+  write_escaped sep f out = out ++ (if needs_quote sep f then quoted f else f).
+Proof. exact writer_field_quotes_iff_needed. Qed.
+Print Assumptions T_C09_writer_field_quotes_iff_needed.
 
 (* the stream writer (UTF-8) produces the same bytes, after the BOM if one is asked for *)
 Theorem T_C09_writer_stream_same : forall bom sep hdr rows, allowed sep -> rows <> [] -> uniform hdr rows ->
@@ -56,94 +42,80 @@ Theorem T_C09_writer_stream_same : forall bom sep hdr rows, allowed sep -> rows 
 Proof. exact writer_stream_same. Qed.
 Print Assumptions T_C09_writer_stream_same.
 
-(* ---- memory reader: every RFC 4180 rendering of a table loads to exactly its rows, whatever columns the reading
-   side asks for and in whatever order ----
-   full statement (reader_rfc_statement):
-     forall sep chs final hdr rows text keys, allowed sep -> NoDup hdr -> uniform hdr rows ->
-     render sep chs final (hdr :: rows) = Some text -> csv_load sep keys text = Ok (select hdr keys rows)
-   false of the current code: F24, a text that ends with the separator loses its last (empty) field *)
-Theorem T_C09_reader_rfc_refuted : ~ reader_rfc_statement.
-Proof. exact reader_rfc_refuted. Qed.
-Print Assumptions T_C09_reader_rfc_refuted.
+(* ---- F22: a table without rows.  Full statement (writer_norows_statement):
+     forall sep hdr, allowed sep -> hdr <> [] ->
+     exists text, csv_write sep hdr [] = Ok text /\ rfc_parse sep text = Some [hdr]
+   false for EVERY header: nothing at all is written, and both loaders reject the empty text ---- *)
+Theorem T_C09_writer_norows_refuted : ~ writer_norows_statement.
+Proof. exact writer_norows_refuted. Qed.
+Print Assumptions T_C09_writer_norows_refuted.
 
-Theorem T_C09_reader_rfc_outside : forall sep chs final hdr rows text keys,
+Theorem T_C09_writer_norows : forall sep hdr keys, allowed sep ->
+  csv_write sep hdr [] = Ok [] /\ csv_load sep keys [] = Err ParsingError /\
+  (forall K, (0 < K)%nat -> csv_load_stream K sep keys [] = Err ParsingError).
+Proof. exact writer_norows. Qed.
+Print Assumptions T_C09_writer_norows.
+
+(* ---- memory reader: every RFC 4180 rendering of a table loads to exactly its rows, whatever columns the reading
+   side asks for and in whatever order (repeats and unknown names included) ---- *)
+Theorem T_C09_reader_rfc : forall sep chs final hdr rows text keys,
   allowed sep -> NoDup hdr -> uniform hdr rows ->
   render sep chs final (hdr :: rows) = Some text ->
-  ~ ends_with sep text ->
   csv_load sep keys text = Ok (select hdr keys rows).
-Proof. exact csv_load_rfc_outside. Qed.
-Print Assumptions T_C09_reader_rfc_outside.
+Proof. exact reader_rfc. Qed.
+Print Assumptions T_C09_reader_rfc.
 
-(* ---- memory reader: a record whose field count differs from the header is rejected ----
-   full statement (reader_width_statement); false by F24 (a,b CRLF 1,2, is accepted) *)
-Theorem T_C09_width_rejected_refuted : ~ reader_width_statement.
-Proof. exact reader_width_refuted. Qed.
-Print Assumptions T_C09_width_rejected_refuted.
-
-Theorem T_C09_width_rejected_outside : forall sep chs final hdr recs text keys,
-  allowed sep ->
-  render sep chs final (hdr :: recs) = Some text -> Exists (fun r => length r <> length hdr) recs ->
-  ~ ends_with sep text ->
-  csv_load sep keys text = Err ParsingError.
-Proof. exact csv_load_width_outside. Qed.
-Print Assumptions T_C09_width_rejected_outside.
-
-(* ---- stream reader (CCsvStreamReader over the chunked UTF-8 source, any chunk size K >= 1; stream_payload = the text
-   after the byte order mark, if the first chunk starts with one) ----
-   full statement (stream_reader_rfc_statement):
-     forall K sep chs final hdr rows text keys, 0 < K -> allowed sep -> NoDup hdr -> uniform hdr rows ->
-     render sep chs final (hdr :: rows) = Some (stream_payload K text) ->
-     csv_load_stream K sep keys text = Ok (select hdr keys rows)
-   false of the current code: F23 (an escaped value in a column other than the first, read by name: the end of the
-   value is computed without its offset) and F25 (an escaped value read twice: unescaping in place) *)
-Theorem T_C09_reader_rfc_stream_refuted : ~ stream_reader_rfc_statement.
-Proof. exact stream_reader_rfc_refuted. Qed.
-Print Assumptions T_C09_reader_rfc_stream_refuted.
-
-Theorem T_C09_reader_rfc_stream_refuted_f25 : exists K sep chs final hdr rows text keys,
-  (0 < K)%nat /\ allowed sep /\ NoDup hdr /\ uniform hdr rows /\
-  render sep chs final (hdr :: rows) = Some (stream_payload K text) /\
-  csv_load_stream K sep keys text <> Ok (select hdr keys rows).
-Proof. exact stream_reader_rfc_refuted_f25. Qed.
-Print Assumptions T_C09_reader_rfc_stream_refuted_f25.
-
-(* chs_ok hdr keys (tl chs): every data row can serve the requests, i.e. (keys_ok) a requested column other than the
-   first is not escaped in that row and an escaped first column is requested once at most *)
-Theorem T_C09_reader_rfc_stream_outside : forall K sep chs final hdr rows text keys,
+(* ---- stream reader: the same, for every chunk size K >= 1, wherever escaped fields, line breaks and separators fall
+   relative to the chunk boundaries; stream_payload = the text after a UTF-8 byte order mark found in the first chunk ---- *)
+Theorem T_C09_reader_rfc_stream : forall K sep chs final hdr rows text keys,
   (0 < K)%nat -> allowed sep -> NoDup hdr -> uniform hdr rows ->
   render sep chs final (hdr :: rows) = Some (stream_payload K text) ->
-  chs_ok hdr keys (tl chs) = true ->
   csv_load_stream K sep keys text = Ok (select hdr keys rows).
-Proof. exact stream_reader_rfc_outside. Qed.
-Print Assumptions T_C09_reader_rfc_stream_outside.
+Proof. exact reader_rfc_stream. Qed.
+Print Assumptions T_C09_reader_rfc_stream.
 
-(* the class in words *)
-Theorem T_C09_stream_class : forall hdr keys chs,
-  (forall ch, In ch chs ->
-     (forall (j : nat) (k : field), In k keys -> nth_error hdr (S j) = Some k -> nth (S j) (ch_quotes ch) false = false) /\
-     (hd false (ch_quotes ch) = true -> forall k0 : field, nth_error hdr 0%nat = Some k0 ->
-        (count_occ field_eq_dec keys k0 <= 1)%nat)) ->
-  chs_ok hdr keys chs = true.
-Proof. exact chs_ok_sufficient. Qed.
-Print Assumptions T_C09_stream_class.
+Theorem T_C09_stream_payload_plain : forall K text, starts_with_bom (firstn K text) = false -> stream_payload K text = text.
+Proof. exact stream_payload_plain. Qed.
+Print Assumptions T_C09_stream_payload_plain.
 
-(* NOT PROVED at full strength for the stream reader:
-     forall K sep chs final hdr recs text keys, 0 < K -> allowed sep ->
-     render sep chs final (hdr :: recs) = Some (stream_payload K text) -> Exists (fun r => length r <> length hdr) recs ->
-     csv_load_stream K sep keys text = Err ParsingError
-   (believed true: every failure of F23/F25 is itself a ParsingError).  Proved for requests in the class above: *)
-Theorem T_C09_width_rejected_stream_partial : forall K sep chs final hdr recs text keys,
-  (0 < K)%nat -> allowed sep -> NoDup hdr ->
-  render sep chs final (hdr :: recs) = Some (stream_payload K text) ->
-  Exists (fun r => length r <> length hdr) recs ->
-  chs_ok hdr keys (tl chs) = true ->
+Theorem T_C09_stream_payload_bom : forall K text, (3 <= K)%nat -> stream_payload K (utf8_bom ++ text) = text.
+Proof. exact stream_payload_bom. Qed.
+Print Assumptions T_C09_stream_payload_bom.
+
+(* header names need not be distinct for loading to succeed; what a request then returns is read_spec (the column
+   cursor followed by std::find), which coincides with the first matching column when the names are distinct *)
+Theorem T_C09_reader_any_header : forall sep chs final hdr rows text keys, allowed sep -> uniform hdr rows ->
+  render sep chs final (hdr :: rows) = Some text ->
+  csv_load sep keys text = Ok (map (fun row => read_spec hdr row keys 0) rows).
+Proof. exact reader_any_header. Qed.
+Print Assumptions T_C09_reader_any_header.
+
+(* ---- a record whose field count differs from the header is rejected, by both readers, whatever is requested ---- *)
+Theorem T_C09_width_rejected : forall sep chs final hdr recs text keys,
+  allowed sep ->
+  render sep chs final (hdr :: recs) = Some text -> Exists (fun r => length r <> length hdr) recs ->
+  csv_load sep keys text = Err ParsingError.
+Proof. exact reader_width. Qed.
+Print Assumptions T_C09_width_rejected.
+
+Theorem T_C09_width_rejected_stream : forall K sep chs final hdr recs text keys,
+  (0 < K)%nat -> allowed sep ->
+  render sep chs final (hdr :: recs) = Some (stream_payload K text) -> Exists (fun r => length r <> length hdr) recs ->
   csv_load_stream K sep keys text = Err ParsingError.
-Proof. exact stream_width_outside. Qed.
-Print Assumptions T_C09_width_rejected_stream_partial.
+Proof. exact reader_width_stream. Qed.
+Print Assumptions T_C09_width_rejected_stream.
 
-(* ---- writer side of the width check: the writer classes report OutOfRange; under SaveObject the report leaves the
-   destructor of CCsvWriteObjectScope, i.e. std::terminate (F18) — for EVERY ragged table, so the statement
-   "a catchable OutOfRange" (writer_width_statement) fails on its whole domain ---- *)
+(* memory and stream loading give the same answer on every RFC 4180 text (same rows or the same error) *)
+Theorem T_C09_stream_eq_mem : forall K sep chs final t text keys, (0 < K)%nat -> allowed sep ->
+  render sep chs final t = Some (stream_payload K text) ->
+  csv_load_stream K sep keys text = csv_load sep keys (stream_payload K text).
+Proof. exact reader_stream_eq_mem. Qed.
+Print Assumptions T_C09_stream_eq_mem.
+
+(* ---- F18: writer side of the width check.  Full statement (writer_width_statement):
+     forall k sep hdr rows, allowed sep -> ragged rows -> csv_save k sep (map (with_keys hdr) rows) = Err OutOfRange
+   false for EVERY ragged table: the writer classes report OutOfRange, but under SaveObject the report leaves the
+   destructor of CCsvWriteObjectScope, i.e. std::terminate ---- *)
 Theorem T_C09_width_rejected_writer_refuted : ~ writer_width_statement.
 Proof. exact writer_width_refuted. Qed.
 Print Assumptions T_C09_width_rejected_writer_refuted.
@@ -166,32 +138,33 @@ Proof. exact separator_checked_everywhere. Qed.
 Print Assumptions T_C09_separator_enforced.
 
 (* ---- non-vacuity: the hypotheses are satisfiable and the functions compute ---- *)
+Example T_C09_example_render :
+  render 44 [mkChoice [false; true] EolLF; mkChoice [true; false] EolCRLF] false [[[97]; [98]]; [[34]; []]] =
+  Some [97; 44; 34; 98; 34; 10; 34; 34; 34; 34; 44].
+Proof. exact example_render. Qed.
+Print Assumptions T_C09_example_render.
+
 Example T_C09_example_write :
-  csv_write 44 [[110]; [118]] [[[97; 34; 98]; [49; 44; 50]]; [[]; [120; 10; 121]]] =
+  csv_write 44 [[110]; [118]] [[[97; 34; 98]; [49; 44; 50]]; [[]; [120; 13; 121]]] =
   Ok [110; 44; 118; 13; 10;
       34; 97; 34; 34; 98; 34; 44; 34; 49; 44; 50; 34; 13; 10;
-      44; 34; 120; 10; 121; 34; 13; 10].
+      44; 34; 120; 13; 121; 34; 13; 10].
 Proof. exact example_write. Qed.
 Print Assumptions T_C09_example_write.
 
 Example T_C09_example_load :
-  csv_load 59 [[98]; [97]; [122]] [97; 59; 98; 10; 34; 120; 34; 34; 59; 34; 59; 34; 49; 34; 13; 10; 59; 10] =
+  csv_load 59 [[98]; [97]; [122]] [97; 59; 98; 10; 34; 120; 34; 34; 59; 34; 59; 34; 49; 34; 13; 10; 59] =
   Ok [[Some [49]; Some [120; 34; 59]; None]; [Some []; Some []; None]].
 Proof. exact example_load. Qed.
 Print Assumptions T_C09_example_load.
 
-Example T_C09_example_width : csv_load 44 [[97]] [97; 44; 98; 13; 10; 49; 13; 10] = Err ParsingError.
-Proof. exact example_width. Qed.
-Print Assumptions T_C09_example_width.
-
 Example T_C09_example_stream :
-  csv_load_stream chunk_size 59 [[98]; [97]; [122]]
-    [0xEF; 0xBB; 0xBF; 97; 59; 98; 10; 34; 120; 34; 34; 59; 34; 59; 49; 13; 10; 59; 10] =
-  Ok [[Some [49]; Some [120; 34; 59]; None]; [Some []; Some []; None]].
+  csv_load_stream chunk_size 59 [[98]; [97]; [122]; [98]]
+    [0xEF; 0xBB; 0xBF; 97; 59; 98; 10; 34; 120; 34; 34; 59; 34; 59; 34; 49; 34; 13; 10; 59; 10] =
+  Ok [[Some [49]; Some [120; 34; 59]; None; Some [49]]; [Some []; Some []; None; Some []]].
 Proof. exact stream_example. Qed.
 Print Assumptions T_C09_example_stream.
 
-Example T_C09_example_stream_no_f24 :
-  csv_load_stream chunk_size 44 [[97]; [98]] [97; 44; 98; 13; 10; 102; 111; 111; 44] = Ok [[Some [102; 111; 111]; Some []]].
-Proof. exact stream_no_f24. Qed.
-Print Assumptions T_C09_example_stream_no_f24.
+Example T_C09_example_width : csv_load 44 [[97]] [97; 44; 98; 13; 10; 49; 44; 50; 44] = Err ParsingError.
+Proof. exact example_width. Qed.
+Print Assumptions T_C09_example_width.
